@@ -196,6 +196,27 @@ def outcome_of(nq, spec, seeded, ctx, clock=None):
     return 'ok', trace.digest(val), (val, cb_time)
 
 
+def _scribble(v):
+    """overwrite every writable ndarray reachable from a returned value (what a caller doing `ret *= 0` would do)"""
+    n = 0
+    if isinstance(v, np.ndarray):
+        if v.flags.writeable and v.size:
+            try:
+                v[...] = (v.dtype.type(1) if v.dtype.kind in 'ui' else v.dtype.type(-7.25)) if v.dtype.kind in 'uifc' else v
+                n += 1
+            except (ValueError, TypeError):
+                pass
+    elif isinstance(v, (list, tuple)):
+        for x in v:
+            n += _scribble(x)
+    elif isinstance(v, dict):
+        for x in v.values():
+            n += _scribble(x)
+    elif hasattr(v, 'F2') and isinstance(getattr(v, 'F2'), np.ndarray):
+        n += _scribble(v.F2)
+    return n
+
+
 class Sim:
     def __init__(self, plan, keep_events):
         import numqi
@@ -302,6 +323,12 @@ class Sim:
                     self.bump('probe.clock_seam_mismatch')
         else:
             self.bump('solver_exception_outcomes')
+        if kind == 'ok' and e.get('fresh_result', True) and spec.get('scribble', True):
+            # the caller owns what a generator returned and may overwrite it in place; a later call must not see that
+            n = _scribble(payload[0])
+            if n:
+                self.bump('fault.caller_overwrites_result.configured')
+                self.bump('fault.caller_overwrites_result.fired')
         if k in self.ref:
             if self.ref[k] != (kind, dig):
                 oracle = 'retry_after_fault' if k in getattr(self, 'after_fault', set()) else 'same_seed_same_bits'
